@@ -436,6 +436,91 @@ pub fn tn(n: &Node, unk: &mut usize) -> String {
     }
 }
 
+// ---------------------------------------------------------------- semantic tie (Model/Invert.v trun ~ interpreter)
+
+/// a value as a term of Model/Prims.v `arr` (integer-valued numbers, characters, boxes of such), or None
+fn arr_term(v: &Value) -> Option<String> {
+    fn elems(v: &Value) -> Option<(String, Vec<String>)> {
+        Some(match v {
+            Value::Num(a) => {
+                let mut out = Vec::new();
+                for x in a.elements() {
+                    if x.fract() != 0.0 || x.abs() >= 9e15 || (*x == 0.0 && x.is_sign_negative()) {
+                        return None;
+                    }
+                    out.push(format!("ENum ({})", *x as i64));
+                }
+                ("TNum".into(), out)
+            }
+            Value::Byte(a) => ("TNum".into(), a.elements().map(|x| format!("ENum ({x})")).collect()),
+            Value::Char(a) => ("TChar".into(), a.elements().map(|c| format!("EChar {}%N", *c as u32)).collect()),
+            Value::Box(a) => {
+                let mut out = Vec::new();
+                for b in a.elements() {
+                    let (t, d) = elems(&b.0)?;
+                    let sh: Vec<String> = b.0.shape.iter().map(|d| d.to_string()).collect();
+                    out.push(format!("EBox {t} [{}]%nat [{}]", sh.join(";"), d.join(";")));
+                }
+                ("TBox".into(), out)
+            }
+            _ => return None,
+        })
+    }
+    let (t, d) = elems(v)?;
+    let sh: Vec<String> = v.shape.iter().map(|d| d.to_string()).collect();
+    Some(format!("(Arr {t} [{}]%nat [{}])", sh.join(";"), d.join(";")))
+}
+
+/// run catalogue terms and their inverses on the real interpreter and print (template, stack in, stack out)
+/// for Coq to replay with [trun]
+fn sem_tie(r: &mut Rng, n: usize) {
+    let d2 = depth2();
+    let mut emitted = 0;
+    let mut tries = 0;
+    while emitted < n && tries < n * 30 {
+        tries += 1;
+        let t = if tries % 4 == 0 { gen_term(r, 3) } else { r.pick(&d2).clone() };
+        let Some(src) = t.src(0) else { continue };
+        let seed = r.next();
+        let name = t.name();
+        let lines = fresh_thread(move || {
+            let mut out = Vec::new();
+            let mut r = Rng::new(seed);
+            let Ok(ti) = compile_term(&src) else { return out };
+            let mut unk = 0usize;
+            let f_tn = tn_list(&ti.f, &mut unk);
+            if unk > 0 {
+                return out;
+            }
+            let un = ti.un.clone().ok();
+            for _ in 0..3 {
+                let x = gen_args(&mut r, ti.sig.args());
+                let Ok(y) = run_node(&ti.asm, &ti.f, &x) else { continue };
+                let (Some(xs), Some(ys)) = (x.iter().rev().map(arr_term).collect::<Option<Vec<_>>>(), y.iter().rev().map(arr_term).collect::<Option<Vec<_>>>()) else { continue };
+                out.push(format!("{{\"sem\":{},\"tn\":{},\"ins\":{},\"outs\":{}}}", jstr(&name), jstr(&f_tn), jstr(&format!("[{}]", xs.join(";"))), jstr(&format!("[{}]", ys.join(";")))));
+                // and the emitted inverse on the result
+                if let Some(u) = &un {
+                    let mut unk2 = 0usize;
+                    let u_tn = tn_list(u, &mut unk2);
+                    if unk2 == 0 {
+                        if let Ok(x2) = run_node(&ti.asm, u, &y) {
+                            if let Some(x2s) = x2.iter().rev().map(arr_term).collect::<Option<Vec<_>>>() {
+                                out.push(format!("{{\"sem\":{},\"tn\":{},\"ins\":{},\"outs\":{}}}", jstr(&format!("°{name}")), jstr(&u_tn), jstr(&format!("[{}]", ys.join(";"))), jstr(&format!("[{}]", x2s.join(";")))));
+                            }
+                        }
+                    }
+                }
+            }
+            out
+        });
+        for l in lines {
+            println!("{l}");
+            emitted += 1;
+        }
+    }
+    println!("{{\"summary\":true,\"emitted\":{emitted},\"tries\":{tries}}}");
+}
+
 // ---------------------------------------------------------------- running
 
 pub fn fresh_thread<R: Send + 'static>(f: impl FnOnce() -> R + Send + 'static) -> R {
@@ -1279,6 +1364,7 @@ fn main() {
                 st.unun_node_agree, st.unun_node_differ, st.anti_checked, st.anti_both_fail, st.chain_terms_skipped, st.no_inverse, st.compile_fail, st.by_depth, st.by_kind, st.by_rank
             );
         }
-        _ => eprintln!("usage: c03 dump|export N|search N"),
+        "sem" => sem_tie(&mut r, n),
+        _ => eprintln!("usage: c03 dump|export N|search N|sem N"),
     }
 }
